@@ -66,7 +66,7 @@ Fixpoint nm_expr (inn : bool) (e : expr) {struct e} : list string :=
       (nm_expr inn fn ++ flat_map (fun a => match a with APos e | ANamed _ e | AStar e | AStarStar e => nm_expr inn e end) args)%list
   | ELambda _ ps body _ =>
       (flat_map (fun q => match q with PDefault _ e => nm_expr inn e | _ => [] end) ps ++ nm_expr true body)%list
-  | EComp _ b bv _ cls =>
+  | EComp _ b bv _ cls _ =>
       (nm_expr inn b ++ nm_expr inn bv ++
        flat_map (fun c => match c with
                           | CFor t e _ => (nm_target inn t ++ nm_expr inn e)%list
@@ -133,7 +133,7 @@ Fixpoint fd_expr (fid : nat) (encl : list string) (e : expr) {struct e} : option
       else match dflts ps with
            | Some d => Some d
            | None => fd_expr fid (encl ++ param_names ps)%list body end
-  | EComp _ b bv _ cls =>
+  | EComp _ b bv _ cls _ =>
       let encl' := (encl ++ comp_vars cls)%list in
       match fd_expr fid encl' b with Some d => Some d | None =>
       match fd_expr fid encl' bv with Some d => Some d | None =>
@@ -303,18 +303,17 @@ Section Ref.
                     | Some v => lift (elements v (rw s2)) ps (rw s2) end);
         call n stk vf (pos_ ++ pos2)%list (named ++ kw2)%list ps s2
     | ELambda fid ps body _ =>
+        do (ds, s1) <- eval_defaults n stk ρ ps false s;
         match find_def p fid with
         | None => Unsup "internal:function-id"
-        | Some _ =>
-            do (ds, s1) <- eval_defaults n stk ρ ps false s;
-            Ok (VFun fid ds (capture ρ (mentioned ps [SReturn (Some body)])), s1)
+        | Some _ => Ok (VFun fid ds (capture ρ (mentioned ps [SReturn (Some body)])), s1)
         end
-    | EComp curly body bodyv cp cls =>
+    | EComp curly body bodyv cp cls _ as e0 =>
         match cls with
         | CFor t e ps :: rest =>
             let '(acc, w0) := if curly then alloc_dict [] (rw s) else alloc_list [] (rw s) in
             do (v0, s1) <- eval n stk ρ e (with_w s w0);
-            let '(ρc, w1) := new_vars (comp_vars cls) [] (boxed_names (p_body p)) (rw s1) in
+            let '(ρc, w1) := new_vars (comp_vars cls) [] (nm_expr false e0) (rw s1) in
             do (_, s2) <- comp n stk (ρc ++ ρ)%list (Some v0) cls acc curly body bodyv cp (with_w s1 w1);
             Ok (acc, s2)
         | _ => Unsup "static:comprehension"
@@ -510,10 +509,10 @@ Section Ref.
     | SReturn None => Ok (OReturn VNone, ρ, s)
     | SReturn (Some e) => do (v, s1) <- eval n stk ρ e s; Ok (OReturn v, ρ, s1)
     | SDef fid name ps body _ =>
+        do (ds, s1) <- eval_defaults n stk ρ ps false s;
         match find_def p fid with
         | None => Unsup "internal:function-id"
         | Some _ =>
-            do (ds, s1) <- eval_defaults n stk ρ ps false s;
             do (ρ1, s2) <- set_var ρ name (VFun fid ds (capture ρ (mentioned ps body))) s1;
             Ok (ONormal, ρ1, s2)
         end
